@@ -27,7 +27,7 @@ def env_maps():
 
 def build_field_domains():
     bps = [[a] for a in TNE] + [[a, b] for a, b in itertools.product(TNE[:5], repeat=2)] + [[a, b, c] for a, b, c in itertools.product(TNE[:3], repeat=3)]
-    return {"builder": TNE, "env": env_maps(), "buildpacks": bps, "app_dir": ["fixture", "ABS"], "preprocessor": [False, True]}
+    return {"builder": TNE, "env": env_maps(), "buildpacks": bps, "app_dir": ["fixture", "ABS", "fixture/", "./fixture", "SYMLINK", "LINKDOTDOT", "LINKDOTDOT+PRE"], "preprocessor": [False, True]}
 
 
 def container_field_domains():
@@ -63,14 +63,54 @@ def configs(thorough):
     return out
 
 
+DECOY_FILES = {"decoy.txt": "not the configured app"}
+
+
+def special_layout(kind):
+    """app directories whose path needs the file system to be understood:
+    SYMLINK: crate/app-link -> fixture; LINKDOTDOT: crate/links/current/../app where
+    crate/links/current -> <root>/store/v1/inner, so the path denotes <root>/store/v1/app (a copy of
+    the fixture) while a lexical clean-up would give the decoy crate/links/app"""
+    def layout(root):
+        crate = os.path.join(root, "crate")
+        if kind == "SYMLINK":
+            os.symlink(os.path.join(crate, "fixture"), os.path.join(crate, "app-link"))
+        else:
+            os.makedirs(os.path.join(root, "store", "v1", "inner"))
+            shutil.copytree(os.path.join(crate, "fixture"), os.path.join(root, "store", "v1", "app"))
+            os.makedirs(os.path.join(crate, "links", "app"))
+            for rel, data in DECOY_FILES.items():
+                open(os.path.join(crate, "links", "app", rel), "w").write(data)
+            os.symlink(os.path.join(root, "store", "v1", "inner"), os.path.join(crate, "links", "current"))
+    return layout
+
+
 def run_cfg(arg):
     idx, (b, c), scratch = arg
     root = os.path.join(scratch, f"c17-{os.getpid()}-{idx}")
     b2 = dict(b)
+    layout = None
+    app_real = os.path.join(root, "crate", "fixture")
     if b2["app_dir"] == "ABS":
         b2["app_dir"] = os.path.join(root, "crate", "fixture")
+    elif b2["app_dir"] == "SYMLINK":
+        b2["app_dir"] = "app-link"
+        layout = special_layout("SYMLINK")
+    elif b2["app_dir"].startswith("LINKDOTDOT"):
+        if b2["app_dir"].endswith("+PRE"):
+            b2["preprocessor"] = True
+        b2["app_dir"] = "links/current/../app"
+        layout = special_layout("LINKDOTDOT")
+        app_real = os.path.join(root, "store", "v1", "app")
     sc = {"root": {"cfg": b2, "body": [{"op": "container", "cfg": c, "body": []}]}, "panic_at": None}
-    r = run_scenario(root, sc)
+
+    def post(root_, res):
+        # resolve what pack was given while the world still exists
+        res["path_real"] = [os.path.realpath(e["argv"][e["argv"].index("--path") + 1]) for e in res["log"] if e["prog"] == "pack" and "--path" in e["argv"]]
+        res["app_real"] = os.path.realpath(app_real)
+        res["preprocessor_effective"] = b2["preprocessor"]
+
+    r = run_scenario(root, sc, layout=layout, post=post)
     r["root"] = root
     shutil.rmtree(root, ignore_errors=True)
     return r
@@ -102,16 +142,16 @@ def judge(r, b, c):
     envs = [tuple(x.split("=", 1)) if "=" in x else (x, None) for x in get("env")]
     if sorted(envs) != sorted((k, val) for k, val in b["env"]):
         v.append(("build-env", f"pack --env decodes to {sorted(envs)}, configured {b['env']}"))
-    fixture = os.path.join(r["root"], "crate", "fixture")
+    fixture = r["app_real"]
     path = get("path")
     if len(path) != 1:
         v.append(("app-path", f"--path given {len(path)} times"))
-    elif not b["preprocessor"]:
-        if os.path.normpath(path[0]) != fixture:
-            v.append(("app-path", f"--path {path[0]!r}, the fixture is {fixture}"))
+    elif not r["preprocessor_effective"]:
+        if r["path_real"] != [fixture] or pb["entry"]["path_listing"] != FIXTURE_FILES:
+            v.append(("app-path", f"--path {path[0]!r} resolves to {r['path_real']} holding {pb['entry']['path_listing']}, the configured app directory is {fixture}"))
     else:
         want = dict(FIXTURE_FILES, **{"added-by-preprocessor": "x", "file.txt": "changed"})
-        if os.path.normpath(path[0]) == fixture:
+        if r["path_real"] == [fixture]:
             v.append(("preprocessor-on-fixture", "with a preprocessor pack was pointed at the fixture itself"))
         elif pb["entry"]["path_listing"] != want:
             v.append(("preprocessed-app-content", f"app dir given to pack holds {pb['entry']['path_listing']}, expected {want}"))
